@@ -131,7 +131,7 @@ fn play_events(srv: &mut Srv, rng: &mut Rng, ctxs: &[Scru128Id; 3], n_events: us
     for ev in ev_base..ev_base + n_events {
         let ci = rng.below(3);
         let ctx = ctxs[ci];
-        let kind = *rng.pick(&["h-register", "h-register", "h-unregister", "h-fail", "h-register-bad", "g-spawn", "g-spawn", "g-spawn-nocontent", "c-define", "c-define", "c-define-bad", "c-call", "noise"]);
+        let kind = *rng.pick(&["h-register", "h-register", "h-unregister", "h-unregister-targeted", "h-fail", "h-register-bad", "g-spawn", "g-spawn", "g-spawn-nocontent", "c-define", "c-define", "c-define-bad", "c-call", "noise"]);
         match kind {
             "h-register" => {
                 let n = *rng.pick(&hnames);
@@ -147,6 +147,13 @@ fn play_events(srv: &mut Srv, rng: &mut Rng, ctxs: &[Scru128Id; 3], n_events: us
             "h-unregister" => {
                 let n = *rng.pick(&hnames);
                 srv.must_append(&format!("{}.unregister", n), ctx, None, None, None)?;
+                model_handlers.insert((ci, n), None);
+            }
+            "h-unregister-targeted" => {
+                // an unregister that names the running instance in its meta (a supervisor, or the handler itself)
+                let n = *rng.pick(&hnames);
+                let current = model_handlers.get(&(ci, n)).cloned().flatten().map(|i| i.to_string());
+                srv.must_append(&format!("{}.unregister", n), ctx, None, Some(json!({"handler_id": current, "reason": "targeted"})), None)?;
                 model_handlers.insert((ci, n), None);
             }
             "h-fail" => {
